@@ -209,6 +209,10 @@ def run(tier, seed, replay=None):
                 if log is None:
                     out.count("skipped", "tool-timeout")
                     continue
+                if case.wrapper == "timeout" and not log and rc in (124, 137):
+                    # on an overloaded machine the stub is not even started within `timeout 0.5`: timeout(1) reports 124
+                    out.count("skipped", "timeout-expired-before-exec")
+                    continue
                 execd = log
                 if case.validate:
                     if is_shell:
